@@ -1776,3 +1776,92 @@ def makegateway_leaves_no_process(live_ids, new_id, explicit: bool, kind: int) -
         return len(g) == n_live + 1 and g[gw.id] is gw and len(log) == before + 1
     finally:
         multi.gateway_io.create_io, multi.gateway_bootstrap.bootstrap = saved
+
+
+# ---------------------------------------------------------------------------------------
+# C17: rsync
+# ---------------------------------------------------------------------------------------
+
+def rsync_single_file_ok(smode, smtime, scontent, pkind, pmode, pmtime, pcontent, delete: bool, extra: bool) -> bool:
+    """source: one regular file f (mode/mtime/content symbolic choices); prior target entry f: absent / file / dir / symlink
+    (symbolic), optional unrelated extra entry; then a second sync of the unchanged tree."""
+    from vlib import rsyncsim as rs
+
+    fs = rs.MemFS()
+    fs.nodes["/vfs/src"] = ["dir", 0o755]
+    fs.nodes["/vfs/src/f"] = ["file", rs.MODES[smode], smtime, rs.CONTENTS[scontent]]
+    fs.nodes["/vfs/dst"] = ["dir", 0o755]
+    if pkind == 1:
+        fs.nodes["/vfs/dst/f"] = ["file", rs.MODES[pmode], pmtime, rs.CONTENTS[pcontent]]
+    elif pkind == 2:
+        fs.nodes["/vfs/dst/f"] = ["dir", 0o755]
+        fs.nodes["/vfs/dst/f/inner"] = ["file", 0o644, 1, b"x"]
+    elif pkind == 3:
+        fs.nodes["/vfs/dst/f"] = ["link", "/nowhere"]
+    if extra:
+        fs.nodes["/vfs/dst/zz_other"] = ["file", 0o600, 5, b"keep"]
+    with rs.Patched(fs):
+        rs.sync(fs, ["/vfs/dst"], delete)
+        if not rs.tree_equal(fs, "/vfs/src", "/vfs/dst", delete, "zz_other" if extra else None):
+            return False
+        if extra and not delete and fs.nodes["/vfs/dst/zz_other"] != ["file", 0o600, 5, b"keep"]:
+            return False
+        # re-syncing the unchanged tree transfers no content and changes nothing
+        before = {k: list(v) for k, v in fs.nodes.items()}
+        del fs.log[:]
+        sent = rs.sync(fs, ["/vfs/dst"], delete)
+        if sent or fs.log or fs.nodes != before:
+            return False
+    return True
+
+
+def rsync_tree_ok(dmode, fmode, fmtime, fcontent, prior: int, delete: bool, two_targets: bool) -> bool:
+    """source: root / sub (dir, mode symbolic choice) / g (file) + a symlink `l` -> sub/g inside the tree and an absolute one"""
+    from vlib import rsyncsim as rs
+
+    fs = rs.MemFS()
+    fs.nodes["/vfs/src"] = ["dir", 0o755]
+    fs.nodes["/vfs/src/sub"] = ["dir", rs.DIRMODES[dmode]]
+    fs.nodes["/vfs/src/sub/g"] = ["file", rs.MODES[fmode], fmtime, rs.CONTENTS[fcontent]]
+    fs.nodes["/vfs/src/l"] = ["link", "/vfs/src/sub/g"]
+    fs.nodes["/vfs/src/abs"] = ["link", "/etc/hostname"]
+    targets = ["/vfs/dst"] + (["/vfs/dst2"] if two_targets else [])
+    for t in targets:
+        fs.nodes[t] = ["dir", 0o755]
+    if prior == 1:      # a file where the directory should be, a directory where the link should be
+        fs.nodes["/vfs/dst/sub"] = ["file", 0o644, 3, b"was a file"]
+        fs.nodes["/vfs/dst/l"] = ["dir", 0o755]
+    elif prior == 2:    # stale entries inside the sub directory
+        fs.nodes["/vfs/dst/sub"] = ["dir", 0o700]
+        fs.nodes["/vfs/dst/sub/old"] = ["file", 0o644, 3, b"old"]
+        fs.nodes["/vfs/dst/sub/g"] = ["file", 0o644, fmtime, rs.CONTENTS[fcontent]]
+    with rs.Patched(fs):
+        rs.sync(fs, targets, delete)
+        for t in targets:
+            for rel, n in (("/sub", fs.nodes["/vfs/src/sub"]), ("/sub/g", fs.nodes["/vfs/src/sub/g"])):
+                got = fs.nodes.get(t + rel)
+                if got is None or got[0] != n[0] or got[1] != n[1]:
+                    return False
+                if n[0] == "file" and (got[2] != n[2] or got[3] != n[3]):
+                    return False
+            # links: inside the tree -> the corresponding place in the target; outside -> copied as is
+            if fs.nodes.get(t + "/l") != ["link", t + "/sub/g"]:
+                return False
+            if fs.nodes.get(t + "/abs") != ["link", "/etc/hostname"]:
+                return False
+            if delete and prior == 2 and t == "/vfs/dst" and "/vfs/dst/sub/old" in fs.nodes:
+                return False
+            if (not delete) and prior == 2 and t == "/vfs/dst" and fs.nodes.get("/vfs/dst/sub/old") != ["file", 0o644, 3, b"old"]:
+                return False
+        del fs.log[:]
+        before = {k: list(v) for k, v in fs.nodes.items()}
+        sent = rs.sync(fs, targets, delete)
+        if sent:
+            return False
+        # links are re-created on every run (remove + symlink): content and metadata of files/dirs must not change
+        if fs.nodes != before:
+            return False
+        for op, path in fs.log:
+            if op in ("write", "utime", "makedirs", "rmtree") or (op == "unlink" and not path.endswith(("/l", "/abs"))):
+                return False
+    return True
